@@ -317,6 +317,26 @@ impl IndexTable {
 		(Entry::empty(), 0)
 	}
 
+	/// Verification hook (H1): run one of the two private page-search functions on a
+	/// caller-supplied page. Only compiled with `--cfg parity_db_verif`.
+	#[cfg(parity_db_verif)]
+	pub fn verif_find_entry(
+		index_bits: u8,
+		key_prefix: u64,
+		sub_index: usize,
+		chunk: &[u8; CHUNK_LEN],
+		fast: bool,
+	) -> (u64, usize) {
+		let table = IndexTable::create_new(std::path::Path::new(""), TableId::new(0, index_bits));
+		let chunk = Chunk(*chunk);
+		let (e, i) = if fast {
+			table.find_entry(key_prefix, sub_index, &chunk)
+		} else {
+			table.find_entry_base(key_prefix, sub_index, &chunk)
+		};
+		(e.as_u64(), i)
+	}
+
 	fn find_entry_base(&self, key_prefix: u64, sub_index: usize, chunk: &Chunk) -> (Entry, usize) {
 		let partial_key = Entry::extract_key(key_prefix, self.id.index_bits());
 		for i in sub_index..CHUNK_ENTRIES {
